@@ -275,6 +275,14 @@ class Gen:
         L.append("  integer :: base_arr(5)")
         for _ in range(self.r.randint(3, 6)):
             self.decls += self.declaration(2, derived="gt")
+        if self.r2.random() < 0.6:
+            # two statements on one line: the documentation trailing the line belongs to the last of them
+            a, b = self.nm("d"), self.nm("d")
+            doc = f"doc text {self.nm('k')} trailing two statements"
+            L.append(f"  integer :: {a}; real :: {b} {self.r2.choice(['!!', '!<'])} {doc}")
+            for n, t, dc in ((a, "integer", None), (b, "real", doc)):
+                self.decls.append({"name": n, "type": t, "selector": "", "attrs": set(), "dim": None, "value": None, "doc": dc,
+                                   "doc2": None, "line": len(L) - 1})
         L.append("contains")
         L.append("  integer function fx(i, j)")
         L.append("    integer, intent(in) :: i, j")
